@@ -129,9 +129,16 @@ def src_at(e, k):
 
 
 def d2_shapes(rep, f, c):
+    """Shape of the table-based acceptance tests — only for functions R-SCAN does not decide.  R-SCAN recognises the same tests over
+    normalised loads (table_test) and fails the advance it cannot prove, so for its functions (all 18 tests on the pinned tree)
+    a frozen operand shape here would only add alarms on equivalent rewrites (`src.get(read + 1..read + 3)` patterns)."""
     n = 0
+    covered = 0
     for name, b in sorted(f.bodies.items()):
         r = Resolver(b)
+        if name in scan.SPECS or any(name.startswith(k + '::') for k in scan.SPECS):
+            covered += sum(1 for blk in b.blocks if 'switch' in blk['t'] and 'UTF8_DATA' in str(r.operand(blk['t']['switch'])))
+            continue
         for bi, blk in enumerate(b.blocks):
             t = blk['t']
             if 'switch' not in t:
@@ -174,7 +181,8 @@ def d2_shapes(rep, f, c):
                 else:
                     why = 'expected one (table & table) term and one (third >> 6) term'
             rep.ob('C14-D2.shape', key, ok, 'table-based acceptance test has an unrecognised shape (%s): %s' % (why, expr_str(e, b)[:160]), at, None, c)
-    rep.floor('C14-D2.shape', 'table-based acceptance tests', n, 6, c)
+    rep.count('table-tests-decided-by-R-SCAN:' + c, covered)
+    rep.floor('C14-D2.shape', 'table-based acceptance tests (shape-checked here or decided by R-SCAN)', n + covered, 6, c)
 
 
 LEAD_SIDES = [I((0, 0x7F)), I((0, 0xC1), (0xE0, 0xFF)), I((0, 0xEF)), I((0, 0x7F), (0xC0, 0xFF)), I((0, 0xDF), (0xF0, 0xFF))]
